@@ -117,12 +117,37 @@ def rules(ctx, F):
             ctx.bad("R4", "ts_subtree_edit:stops-after-the-edit", "the child loop of ts_subtree_edit no longer stops at children that start after the edit (whole tree would be marked)")
 
 
+def rule_eq(ctx, F):
+    """R5: the scanner-state equality the reuse gates use treats an absent token like an empty
+    state (otherwise every candidate is refused until the next external token)."""
+    fn = ctx.need_fn(F, "ts_subtree_external_scanner_state_eq", "R5")
+    if fn:
+        rets = [(pt, strip(e["e"])) for pt, e in fn.points() if e.get("k") == "ret"]
+        const_false = [pt for pt, v in rets if v.get("k") == "int" and v.get("v") == 0]
+        calls = [pt for pt, v in rets if M(fn).match("ts_external_scanner_state_eq(ts_subtree_external_scanner_state(self), _, _)", v)]
+        if const_false:
+            ctx.bad("R5", "ts_subtree_external_scanner_state_eq:no-shortcut-inequality", "ts_subtree_external_scanner_state_eq returns a constant `false` at %s: an absent token no longer equals a token with empty scanner state, "
+                    "so node reuse is refused wholesale after such an edit" % fn.loc(const_false[0]), {"site": fn.loc(const_false[0])})
+        elif calls:
+            ctx.ok("R5", "ts_subtree_external_scanner_state_eq:no-shortcut-inequality", "inequality is only ever decided by comparing the serialized states (absent token ≡ empty state)")
+        else:
+            ctx.bad("R5", "ts_subtree_external_scanner_state_eq:compares-states", "ts_subtree_external_scanner_state_eq no longer compares the two serialized scanner states")
+    fn = ctx.need_fn(F, "ts_subtree_external_scanner_state", "R5")
+    if fn:
+        rets = [strip(e["e"]) for pt, e in fn.points() if e.get("k") == "ret"]
+        if any(v.get("k") == "un" and v["op"] == "&" and strip(v["e"]).get("dk") == "global" for v in rets) or any("empty_state" in show(v) for v in rets):
+            ctx.ok("R5", "ts_subtree_external_scanner_state:absent-is-empty", "a subtree without external-token state yields the shared empty state")
+        else:
+            ctx.bad("R5", "ts_subtree_external_scanner_state:absent-is-empty", "ts_subtree_external_scanner_state no longer maps an absent token to the empty state")
+
+
 def run(ctx):
     for cfg in configs(ctx):
         ctx.config = cfg
         F = ctx.extract.cfacts(cfg)
         ctx.analysed["c_functions_" + cfg] = len(F.fn_list)
         rules(ctx, F)
+        rule_eq(ctx, F)
     return ctx.finish(
         "Feasibility and ordering rules over parser.c/subtree.c: the reuse accept exits are reachable under constant/flag propagation; node reuse and the token cache are tried "
         "before the lexer; every rejecting iteration moves the old-tree walk; the edit marks only nodes on the edited path. Necessary conditions only — the reuse fractions are runtime quantities.")
